@@ -17,9 +17,15 @@ expectile family).  Everything is at `K = ℝ`.
 * mean / Bregman family: `cons_mean_identity` (exact: total at `c` = total at the mean + `W·2B(m,c)`).
 * expectile family: `cons_hes_os` (per observation), `cons_expectile_total_diff` (summed).
 * quantile family: `cons_hqs_up`, `cons_hqs_dn`, `cons_quantile_total_up/dn`.
-* log loss: `cons_logloss_identity`.
-* `scoreMean`: `cons_mapM_ok`, `scoreMean_ok`, `cons_scoreMean_const`, weight rescaling.
-* homogeneity of `hesBase`: `cons_hesBase_mul`. -/
+* log loss: `cons_logloss_identity` (mean in `(0,1)`), `cons_logloss_identity_all` (mean in `[0,1]`).
+* `scoreMean`: `cons_mapM_ok`, `scoreMean_ok`, `cons_scoreMean_const`, weight rescaling
+  (`cons_scoreMean_scale`), `weights=None` (`cons_scoreMean_none`).
+* homogeneity of `hesBase`: `cons_hesBase_mul`; limits `h → 1`, `h → 0`: `cons_limit_degree_one`,
+  `cons_limit_degree_zero`, `cons_limit_gfun_zero`.
+* sample level: `cons_mean_consistent`, `cons_expectile_consistent`, `cons_quantile_consistent`,
+  `cons_logloss_consistent(_all)` and the order-sensitivity versions `cons_*_better`.
+* all seven `ScoreKind`s at once: `scoreDom`, `scoreVal`, `isTarget`, `cons_scorePair_ok`,
+  `cons_consistent_total`, `cons_consistent_scoreMean`, `cons_better_total`, `cons_better_scoreMean`. -/
 set_option linter.unusedSectionVars false
 namespace MD
 open Real
